@@ -239,6 +239,23 @@ theorem sound_step (g : Grammar) (f : Nat) (ih : SoundAt g f) : SoundAt g (f + 1
           · obtain ⟨p, hc, hm⟩ := ihM b _ cs rem h
             exact ⟨p, hc, .symHidden hb hk hm⟩
         · next k n hk =>
+          rcases List.mem_append.mp h with h | h
+          rotate_left
+          · split at h
+            · next y rest =>
+              split at h
+              · next hc =>
+                simp only [List.mem_singleton] at h
+                subst h
+                obtain ⟨hh, hc⟩ := hc
+                simp only [List.any_eq_true, List.isEmpty_iff] at hc
+                obtain ⟨rem', hrem', hnil⟩ := hc
+                subst hnil
+                obtain ⟨p, hcp, hm⟩ := ihM b _ _ [] hrem'
+                simp only [List.append_nil] at hcp
+                exact ⟨[_], rfl, .symAliasedUnit hb hh hk (by rw [hcp]; exact hm)⟩
+              · simp at h
+            · simp at h
           split at h
           · next k' n' f' kids rest =>
             split at h
@@ -247,7 +264,7 @@ theorem sound_step (g : Grammar) (f : Nat) (ih : SoundAt g f) : SoundAt g (f + 1
               subst h
               obtain ⟨h1, h2, h3, h4⟩ := hc
               subst h1 h2 h3
-              exact ⟨[_], rfl, .symVisible hb hk (ihB b kids h4)⟩
+              exact ⟨[_], rfl, .symVisible hb hk (ihB b _ h4)⟩
             · simp at h
           · simp at h
   · intro b kids h
